@@ -274,7 +274,6 @@ theorem read_eq_some_iff (A : DFTA σ Q) (hd : A.Det) (l : σ) (qs : List Q) (q 
   AList.lookup_eq_some_iff_mem hd
 
 /-- induction principle for statements about all runs -/
-omit [DecidableEq σ] in
 theorem run_induction (P : Tree σ → Prop)
     (h : ∀ l ks, (∀ k ∈ ks, P k) → P (.node l ks)) : ∀ t, P t := by
   intro t
@@ -315,7 +314,6 @@ theorem runList_eq_some_iff (A : DFTA σ Q) (ts : List (Tree σ)) (qs : List Q) 
         rw [h1, (ih _).mpr h2]; rfl
 
 
-omit [DecidableEq σ] [DecidableEq Q] in
 theorem exists_forall₂ {α β : Type} (R : α → β → Prop) (bs : List β) (h : ∀ b ∈ bs, ∃ a, R a b) :
     ∃ as, List.Forall₂ R as bs := by
   induction bs with
